@@ -198,7 +198,10 @@ def insertion(ctx, p, k, v, keep_key, absent, present, full_none=None):
         ctx.req('ROUTE', ok, nm + ':hit',
                 'on the found path slot h must hold (%s key, supplied value) and no other slot may change'
                 % ('the supplied' if keep_key is False else 'the originally stored'), p,
-                props=(ctx.props & {'C12', 'C18'}) if key_only else (ctx.props - {'C03'}))
+                # (which of two equal key objects stays stored is observable through iteration, get_key_value,
+                #  Set::get: part of the reference-model properties too, whose model is the documented one --
+                #  insert keeps the stored key, insert_key_value / replace store the new one)
+                props=(ctx.props & {'C01', 'C07', 'C11', 'C12', 'C18'}) if key_only else ((ctx.props - {'C03'}) | {'C05'}))
         ctx.req('OUT', p.len_is(0), nm + ':hit', 'len must not change when the key is already present', p)
         ctx.req('OUT', present(p, idx), nm + ':hit-result', 'wrong result for a present key', p,
                 props=ctx.props | {'C12'})
@@ -2316,6 +2319,14 @@ def _pulled_cb(e):
 
 def _item_of_cb(e):
     return ('cbarg',)
+
+
+# roots in which the user callable must be called at most once per stored element (tracked by the interpreter:
+# MapState.asked, rule ASKED-ONCE)
+ASKED_ONCE = {
+    (MAP, None, 'retain'): {'C01'},
+    (SET, None, 'retain'): {'C07'},
+}
 
 
 def _pulled_any(e):
